@@ -32,14 +32,16 @@ theorem AkeP.ofInv {K : Crypto} {c : Conv} {a : Ake} (h : Inv K c) (hv : c.versi
   ⟨h.dropAke, hv, a, ha, h.ake a ha⟩
 
 theorem Inv.ofDropAke {K : Crypto} {c : Conv} (h : Inv K { c with ake := none })
-    (hx : ∀ a, c.ake = some a → AkeOK c.ourCurrentKey a.state a) : Inv K c :=
-  ⟨h.smpWF, h.smpNum, h.smpWait, h.enc, hx⟩
+    (hx : ∀ a, c.ake = some a → AkeOK c.ourCurrentKey a.state a)
+    (hxv : c.version = none → ∀ a, c.ake = some a → a.state = .none) : Inv K c :=
+  ⟨h.smpWF, h.smpNum, h.smpWait, h.enc, hx, hxv⟩
 
 /-- writing the new state into the AKE context re-establishes the invariant -/
 theorem AkeP.toInv {K : Crypto} {st : AuthState} {c : Conv} (h : AkeP K st c) :
     Inv K { c with ake := c.ake.map fun a => { a with state := st } } := by
   obtain ⟨a, ha, hok⟩ := h.ake
   refine Inv.ofDropAke (c := { c with ake := c.ake.map fun a => { a with state := st } }) h.base ?_
+    (fun hv => absurd hv h.ver)
   intro a' ha'
   simp only [ha, Option.map_some, Option.some.injEq] at ha'
   subst ha'
@@ -54,7 +56,7 @@ theorem AkeP.mk' {K : Crypto} {st st' : AuthState} {c : Conv} (h : AkeP K st c) 
     AkeP K st' c' := by
   refine ⟨?_, by rw [hv]; exact h.ver, a', ha, by rw [ho]; exact hok⟩
   have hb := h.base
-  refine ⟨?_, ?_, ?_, ?_, ?_⟩
+  refine ⟨?_, ?_, ?_, ?_, ?_, fun _ a ha => (by cases ha)⟩
   · have := hb.smpWF; unfold SmpWF at *; simp only [hs] at *; exact this
   · have := hb.smpNum; unfold SmpNumWF at *; simp only [hs] at *; exact this
   · have := hb.smpWait; unfold SmpWaitWF at *; simp only [hs] at *; exact this
@@ -456,7 +458,7 @@ theorem AkeP.finish {K : Crypto} {st : AuthState} {c : Conv} (h : AkeP K st c) (
     (hs : c'.smp = c.smp) (a' : Ake) (ha : c'.ake = some a') : AkeP K .none c' := by
   refine ⟨?_, by rw [hv]; exact h.ver, a', ha, trivial⟩
   have hb := h.base
-  refine ⟨?_, ?_, ?_, ?_, ?_⟩
+  refine ⟨?_, ?_, ?_, ?_, ?_, fun _ a ha => (by cases ha)⟩
   · have := hb.smpWF; unfold SmpWF at *; simp only [hs] at *; exact this
   · have := hb.smpNum; unfold SmpNumWF at *; simp only [hs] at *; exact this
   · have := hb.smpWait; unfold SmpWaitWF at *; simp only [hs] at *; exact this
@@ -487,7 +489,7 @@ theorem recvRevealSig_akeP (K : Crypto) (hK : CryptoOK K) (msg : Bytes) (st : Au
       cases r with
       | error e =>
         akex []
-        refine ⟨_, _, _, rfl, h.mk' _ rfl rfl rfl rfl (Or.inr (by simp)) rfl _ rfl ?_⟩
+        refine ⟨_, _, _, rfl, h.mk' _ rfl rfl rfl rfl (Or.inl rfl) rfl _ rfl ?_⟩
         simp [AkeOK, hours']
       | ok m =>
         have hock := hr ⟨_, rfl⟩
@@ -497,7 +499,7 @@ theorem recvRevealSig_akeP (K : Crypto) (hK : CryptoOK K) (msg : Bytes) (st : Au
         cases r with
         | error e =>
           akex []
-          refine ⟨_, _, _, rfl, h.mk' _ rfl rfl rfl rfl (Or.inr (by simp)) rfl _ rfl ?_⟩
+          refine ⟨_, _, _, rfl, h.mk' _ rfl rfl rfl rfl (Or.inl rfl) rfl _ rfl ?_⟩
           simp [AkeOK, hours']
         | ok m2 =>
           akex [akeSetTheirCurrent, akeSetOurCurrent, hours', htheirs]
@@ -655,25 +657,91 @@ theorem wp_congr_run {α} (x y : M α) (Q : Except Err α → MState → Prop) (
 
 theorem Inv.mapAkeLsc {K : Crypto} {c : Conv} (h : Inv K c) (x : Option Nat) :
     Inv K { c with ake := c.ake.map fun a => { a with lastStateChange := x } } := by
-  refine h.setAke _ ?_
-  intro a' ha'
-  cases hc : c.ake with
-  | none => rw [hc] at ha'; cases ha'
-  | some a =>
-    rw [hc] at ha'
-    simp only [Option.map_some, Option.some.injEq] at ha'
-    subst ha'
-    exact (AkeOK_lsc _ _ _ _).2 (h.ake a hc)
+  refine h.setAke _ ?_ ?_
+  · intro a' ha'
+    cases hc : c.ake with
+    | none => rw [hc] at ha'; cases ha'
+    | some a =>
+      rw [hc] at ha'
+      simp only [Option.map_some, Option.some.injEq] at ha'
+      subst ha'
+      exact (AkeOK_lsc _ _ _ _).2 (h.ake a hc)
+  · intro hv a' ha'
+    cases hc : c.ake with
+    | none => rw [hc] at ha'; cases ha'
+    | some a =>
+      rw [hc] at ha'
+      simp only [Option.map_some, Option.some.injEq] at ha'
+      subst ha'
+      exact h.akeVer hv a hc
 
 /-- what `processAKE` guarantees -/
 def AkePost (K : Crypto) (r : Except Err (List Bytes × Option Err)) (s' : MState) : Prop :=
   Inv K s'.conv ∧ s'.conv.version ≠ none
+
+/-- retransmission (and the parsing of headers) leaves the message state and the AKE context alone -/
+abbrev AkeCtxFrame : MState → MState → Prop := Keeps (fun s => (s.conv.msgState, s.conv.ake))
+
+theorem Stable.akeCtx {α} {x : M α} (h : Stable SendFrame x) : Stable AkeCtxFrame x :=
+  Stable.mono (fun s s' hs => by
+    have h2 : sendKept s' = sendKept s := hs
+    simp only [sendKept, Prod.mk.injEq] at h2
+    show (s'.conv.msgState, s'.conv.ake) = (s.conv.msgState, s.conv.ake)
+    rw [h2.2.2.2.2.1, h2.2.2.2.2.2.2.2.2.2.2.2.2.1]) h
+
+theorem wrapMessageHeader_akeCtx (t : Nat) (m : Bytes) : Stable AkeCtxFrame (wrapMessageHeader t m) := by
+  unfold wrapMessageHeader
+  stable [(messageHeader_sendFrame _).akeCtx]
+
+theorem retransmit_akeCtx (K : Crypto) : Stable AkeCtxFrame (retransmit K) := by
+  unfold retransmit updateLastSent msgEvent
+  stable [(genDataMsgWithFlag_sendFrame K _ _ _).akeCtx, wrapMessageHeader_akeCtx]
+
+theorem retransmitOrReveal_akeCtx (K : Crypto) : Stable AkeCtxFrame (retransmitOrReveal K) := by
+  unfold retransmitOrReveal maybeRetransmit
+  stable [retransmit_akeCtx, (genDataMsgWithFlag_sendFrame K _ _ _).akeCtx, wrapMessageHeader_akeCtx]
+
+theorem retransmitAfterCompletedExchange_akeCtx (K : Crypto) (before after : AuthState) (e : Option Err) :
+    Stable AkeCtxFrame (retransmitAfterCompletedExchange K before after e) := by
+  by_cases h : before = .none ∨ after ≠ .none ∨ e ≠ none
+  · rw [retransmitAfterCompletedExchange_skip K before after e h]; exact Stable.pure _
+  · have hb : before ≠ .none := fun hb => h (Or.inl hb)
+    have ha : after = .none := Classical.byContradiction fun ha => h (Or.inr (Or.inl ha))
+    have he : e = none := Classical.byContradiction fun he => h (Or.inr (Or.inr he))
+    subst ha he
+    rw [retransmitAfterCompletedExchange_completed K before hb]
+    exact retransmitOrReveal_akeCtx K
+
+/-- the conditional time stamp at the end of `processAKE` (repaired code) keeps the invariant; it needs the AKE
+    context (which `processAKE` has created) -/
+theorem akeStamp_inv (K : Crypto) (st : AuthState) (m : Option Bytes) (e : Option Err) (s : MState)
+    (h : Inv K s.conv) (hv : s.conv.version ≠ none) (ha : s.conv.ake ≠ none)
+    (r : Except Err (List Bytes × Option Err)) :
+    wp (akeStamp st m e) (fun _ s' => AkePost K r s') NoP s := by
+  obtain ⟨a, ha⟩ := some_of_ne_none ha
+  refine wp_of_runM _ _ _ _ _ _ (akeStamp_run st m e s a ha) ?_
+  rw [stampAke_eq]
+  have h2 := h.mapAkeLsc (if akeStampCond st a.state m e then some s.env.now else a.lastStateChange)
+  rw [ha] at h2
+  exact ⟨h2, hv⟩
 
 theorem akeRest_inv (K : Crypto) (hK : CryptoOK K) (t : Nat) (msg : Bytes) (s : MState) (a : Ake)
     (hI : Inv K s.conv) (hv : s.conv.version ≠ none) (ha : s.conv.ake = some a) :
     wp (akeRest K t msg a.state) (AkePost K) NoP s := by
   have h : AkeP K a.state s.conv := AkeP.ofInv hI hv ha
   generalize a.state = st at h
+  have hfin : ∀ (m : Option Bytes) (e : Option Err) (s2 : MState), Inv K s2.conv →
+      s2.conv.version ≠ none → s2.conv.ake ≠ none → ∀ (Q : Except Err Unit → MState → Prop),
+      (∀ r s', (Inv K s'.conv ∧ s'.conv.version ≠ none) → Q r s') →
+      wp (akeStamp st m e) Q NoP s2 := by
+    intro m e s2 h2 hv2 ha2 Q hQ
+    exact wp_mono _ _ _ _ _ _ (akeStamp_inv K st m e s2 h2 hv2 ha2 (.ok ([], none))) (fun r s3 h3 => hQ r s3 h3)
+      (fun _ hs => hs)
+  have hmap : ∀ (s1 : MState) (st' : AuthState), AkeP K st' s1.conv →
+      (s1.conv.ake.map fun a => { a with state := st' }) ≠ none := by
+    intro s1 st' hP
+    obtain ⟨a1, ha1, -⟩ := hP.ake
+    rw [ha1]; simp
   unfold akeRest akeDispatch
   rw [wp_bind]
   simp only [wp_ite']
@@ -681,39 +749,55 @@ theorem akeRest_inv (K : Crypto) (hK : CryptoOK K) (t : Nat) (msg : Bytes) (s : 
   · rw [wp_bind]
     refine wp_mono _ _ _ _ _ _ (recvDHCommit_akeP K msg st s h) ?_ (fun _ hs => hs)
     rintro r s1 ⟨st', m, e, rfl, hP⟩
-    simp only [modAke, wp_bind, wp_modc, wp_pure, wp_now]
-    exact ⟨hP.toInv.mapAkeLsc _, hP.ver⟩
+    simp only [modAke, wp_bind, wp_modc, wp_pure]
+    refine hfin m e ⟨_, s1.env, s1.events, s1.mismatch⟩ hP.toInv hP.ver (hmap s1 st' hP) _ ?_
+    intro r s' hq
+    cases r <;> exact hq
   · rw [wp_bind]
     refine wp_mono _ _ _ _ _ _ (recvDHKey_akeP K hK msg st s h) ?_ (fun _ hs => hs)
     rintro r s1 ⟨st', m, e, rfl, hP⟩
-    simp only [modAke, wp_bind, wp_modc, wp_pure, wp_now]
-    exact ⟨hP.toInv.mapAkeLsc _, hP.ver⟩
+    simp only [modAke, wp_bind, wp_modc, wp_pure]
+    refine hfin m e ⟨_, s1.env, s1.events, s1.mismatch⟩ hP.toInv hP.ver (hmap s1 st' hP) _ ?_
+    intro r s' hq
+    cases r <;> exact hq
   · rw [wp_bind]
     refine wp_mono _ _ _ _ _ _ (recvRevealSig_akeP K hK msg st s h) ?_ (fun _ hs => hs)
     rintro r s1 ⟨st', m, e, rfl, hP⟩
     simp only [modAke, wp_bind, wp_modc]
-    refine wp_mono _ _ _ _ _ _ (retransmitAfterCompletedExchange_inv K _ _ _ _ hP.toInv) ?_ (fun _ hs => hs)
-    intro r s2 ⟨h2, hv2⟩
+    refine wp_mono _ _ _ _ _ _ (wp_stable _ _ _ _ _ (retransmitAfterCompletedExchange_inv K _ _ _ _ hP.toInv)
+      (retransmitAfterCompletedExchange_akeCtx K _ _ _)) ?_ (fun _ hs => hs)
+    intro r s2 ⟨⟨h2, hv2⟩, hk2⟩
     have hv2' : s2.conv.version ≠ none := by rw [hv2]; exact hP.ver
     cases r with
     | error e => exact ⟨h2, hv2'⟩
     | ok extra =>
-      simp only [wp_bind, wp_modc, wp_pure, wp_now]
-      exact ⟨h2.mapAkeLsc _, hv2'⟩
+      simp only [wp_pure]
+      refine hfin m e s2 h2 hv2' ?_ _ ?_
+      · rw [show s2.conv.ake = _ from (Prod.mk.inj hk2).2]
+        exact hmap s1 st' hP
+      · intro r s' hq
+        cases r <;> exact hq
   · rw [wp_bind]
     refine wp_mono _ _ _ _ _ _ (recvSig_akeP K hK msg st s h) ?_ (fun _ hs => hs)
     rintro r s1 ⟨st', m, e, rfl, hP⟩
     simp only [modAke, wp_bind, wp_modc]
-    refine wp_mono _ _ _ _ _ _ (retransmitAfterCompletedExchange_inv K _ _ _ _ hP.toInv) ?_ (fun _ hs => hs)
-    intro r s2 ⟨h2, hv2⟩
+    refine wp_mono _ _ _ _ _ _ (wp_stable _ _ _ _ _ (retransmitAfterCompletedExchange_inv K _ _ _ _ hP.toInv)
+      (retransmitAfterCompletedExchange_akeCtx K _ _ _)) ?_ (fun _ hs => hs)
+    intro r s2 ⟨⟨h2, hv2⟩, hk2⟩
     have hv2' : s2.conv.version ≠ none := by rw [hv2]; exact hP.ver
     cases r with
     | error e => exact ⟨h2, hv2'⟩
     | ok extra =>
-      simp only [wp_bind, wp_modc, wp_pure, wp_now]
-      exact ⟨h2.mapAkeLsc _, hv2'⟩
-  · simp only [modAke, wp_bind, wp_modc, wp_pure, wp_now]
-    exact ⟨hI.mapAkeLsc _, hv⟩
+      simp only [wp_pure]
+      refine hfin m e s2 h2 hv2' ?_ _ ?_
+      · rw [show s2.conv.ake = _ from (Prod.mk.inj hk2).2]
+        exact hmap s1 st' hP
+      · intro r s' hq
+        cases r <;> exact hq
+  · simp only [wp_pure, wp_bind]
+    refine hfin _ _ s hI hv (by rw [ha]; simp) _ ?_
+    intro r s' hq
+    cases r <;> exact hq
 
 /-- **the AKE path**: from a state satisfying the invariant with a version set, `processAKE` does not panic
     on any message type and body, and re-establishes the invariant (whether it returns or throws) -/
@@ -725,11 +809,123 @@ theorem processAKE_inv (K : Crypto) (hK : CryptoOK K) (t : Nat) (msg : Bytes) (s
     exact wp_congr_run _ _ _ _ _ _ (processAKE_run_some K t msg s a ha) (akeRest_inv K hK t msg s a hI hv ha)
   | none =>
     refine wp_congr_run _ _ _ _ _ _ (processAKE_run_none K t msg s ha)
-      (akeRest_inv K hK t msg _ {} (hI.setAke _ ?_) hv rfl)
+      (akeRest_inv K hK t msg _ {} (hI.setAke _ ?_ (fun hn => absurd hn hv)) hv rfl)
     intro a' ha'
     simp only [Option.some.injEq] at ha'
     subst ha'
     trivial
+
+/-- from the authentication state `none`, the dispatch of a message that is rejected leaves the state `none`
+    and produces nothing to send -/
+theorem akeDispatch_none_rejected (K : Crypto) (t : Nat) (msg : Bytes) (s0 s1 : MState)
+    (single : Option Bytes) (extra : List Bytes) (err : Option Err)
+    (h0 : ∀ a, s0.conv.ake = some a → a.state = .none)
+    (h : runM (akeDispatch K t msg .none) s0 = .ok (.ok (single, extra, err), s1)) (he : err ≠ none) :
+    single = none ∧ extra = [] ∧ ∀ a, s1.conv.ake = some a → a.state = .none := by
+  have hmapnone : ∀ (s2 : MState) (a : Ake),
+      (s2.conv.ake.map fun a => { a with state := AuthState.none }) = some a → a.state = .none := by
+    intro s2 a ha
+    cases hc : s2.conv.ake with
+    | none => rw [hc] at ha; cases ha
+    | some a2 =>
+      rw [hc] at ha
+      simp only [Option.map_some, Option.some.injEq] at ha
+      subst ha; rfl
+  unfold akeDispatch at h
+  by_cases h1 : t = msgTypeDHCommit
+  · rw [if_pos h1, runM_bind] at h
+    obtain ⟨u, s2, hr, h⟩ := bindM_ok_inv h
+    have hr' : runM (recvDHCommitNone K msg) s0 = .ok (.ok u, s2) := hr
+    unfold recvDHCommitNone at hr'
+    rcases akeTry_cases hr' with ⟨u', hu, hx⟩ | ⟨er, hu, -⟩
+    · exfalso
+      cases hu
+      rw [runM_bind] at hx
+      obtain ⟨_, s3, -, hx⟩ := bindM_ok_inv hx
+      rw [runM_bind] at hx
+      obtain ⟨_, s4, -, hx⟩ := bindM_ok_inv hx
+      rw [runM_bind] at hx
+      obtain ⟨_, s5, -, hx⟩ := bindM_ok_inv hx
+      rw [runM_bind] at hx
+      obtain ⟨_, s6, -, hx⟩ := bindM_ok_inv hx
+      simp only [runM_pure, Res.ok.injEq, Prod.mk.injEq, Except.ok.injEq] at hx
+      obtain ⟨hu, -⟩ := hx
+      subst hu
+      simp only [modAke, runM_bind, runM_modc, bindM_ok, runM_pure, Res.ok.injEq, Prod.mk.injEq,
+        Except.ok.injEq] at h
+      exact he h.1.2.2.symm
+    · cases hu
+      simp only [modAke, runM_bind, runM_modc, bindM_ok, runM_pure, Res.ok.injEq, Prod.mk.injEq,
+        Except.ok.injEq] at h
+      obtain ⟨⟨hs, hx, -⟩, rfl⟩ := h
+      exact ⟨hs.symm, hx.symm, hmapnone s2⟩
+  · rw [if_neg h1] at h
+    by_cases h2 : t = msgTypeDHKey
+    · exfalso
+      rw [if_pos h2] at h
+      simp only [recvDHKey, modAke, runM_bind, runM_modc, bindM_ok, runM_pure, Res.ok.injEq, Prod.mk.injEq,
+        Except.ok.injEq] at h
+      exact he h.1.2.2.symm
+    · rw [if_neg h2] at h
+      by_cases h3 : t = msgTypeRevealSig
+      · exfalso
+        rw [if_pos h3, recvRevealSig_other K .none msg (by simp)] at h
+        simp only [modAke, runM_bind, runM_modc, bindM_ok, runM_pure, retransmitAfterCompletedExchange_same,
+          Res.ok.injEq, Prod.mk.injEq, Except.ok.injEq] at h
+        exact he h.1.2.2.symm
+      · rw [if_neg h3] at h
+        by_cases h4 : t = msgTypeSig
+        · exfalso
+          rw [if_pos h4, recvSig_other K .none msg (by simp)] at h
+          simp only [modAke, runM_bind, runM_modc, bindM_ok, runM_pure, retransmitAfterCompletedExchange_same,
+            Res.ok.injEq, Prod.mk.injEq, Except.ok.injEq] at h
+          exact he h.1.2.2.symm
+        · rw [if_neg h4] at h
+          simp only [runM_pure, Res.ok.injEq, Prod.mk.injEq, Except.ok.injEq] at h
+          obtain ⟨⟨hs, hx, -⟩, rfl⟩ := h
+          exact ⟨hs.symm, hx.symm, h0⟩
+
+/-- **no exchange is started by a rejected message**: from the authentication state `none` (or without an AKE
+    context), if `processAKE` returns an error next to the messages to send, there is nothing to send and the
+    authentication state is still `none` -/
+theorem processAKE_none_rejected (K : Crypto) (t : Nat) (msg : Bytes) (s s' : MState)
+    (msgs : List Bytes) (e : Err) (h0 : ∀ a, s.conv.ake = some a → a.state = .none)
+    (h : runM (processAKE K t msg) s = .ok (.ok (msgs, some e), s')) :
+    msgs = [] ∧ ∀ a, s'.conv.ake = some a → a.state = .none := by
+  have key : ∀ s0 : MState, (∀ a, s0.conv.ake = some a → a.state = .none) →
+      runM (akeRest K t msg .none) s0 = .ok (.ok (msgs, some e), s') →
+      msgs = [] ∧ ∀ a, s'.conv.ake = some a → a.state = .none := by
+    intro s0 h0 h
+    unfold akeRest at h
+    rw [runM_bind] at h
+    obtain ⟨⟨single, extra, err⟩, s1, hd, h⟩ := bindM_ok_inv h
+    simp only at h
+    rw [runM_bind] at h
+    obtain ⟨_, s2, hs, h⟩ := bindM_ok_inv h
+    simp only [runM_pure, Res.ok.injEq, Prod.mk.injEq, Except.ok.injEq] at h
+    obtain ⟨⟨hmsgs, herr⟩, rfl⟩ := h
+    obtain ⟨hsing, hext, h1⟩ :=
+      akeDispatch_none_rejected K t msg s0 s1 single extra err h0 hd (by rw [herr]; simp)
+    subst hsing hext
+    refine ⟨hmsgs.symm, ?_⟩
+    cases ha1 : s1.conv.ake with
+    | none => rw [akeStamp_run_none _ _ _ _ ha1] at hs; cases hs
+    | some a1 =>
+      rw [akeStamp_run _ _ _ _ _ ha1] at hs
+      simp only [Res.ok.injEq, Prod.mk.injEq] at hs
+      obtain ⟨-, rfl⟩ := hs
+      intro a ha
+      simp only [Option.some.injEq] at ha
+      subst ha
+      rw [stampAke_state]
+      exact h1 a1 ha1
+  cases ha : s.conv.ake with
+  | none =>
+    rw [processAKE_run_none K t msg s ha] at h
+    exact key _ (fun a ha' => by simp only [Option.some.injEq] at ha'; subst ha'; rfl) h
+  | some a =>
+    rw [processAKE_run_some K t msg s a ha, h0 a ha] at h
+    exact key s h0 h
 
 theorem processAKE_no_panic (K : Crypto) (hK : CryptoOK K) (t : Nat) (msg : Bytes) (s : MState)
     (hI : Inv K s.conv) (hv : s.conv.version ≠ none) :
@@ -751,7 +947,7 @@ theorem sendDHCommit_inv (K : Crypto) (s : MState) (h : Inv K s.conv) (hv : s.co
       c.smp = s.conv.smp → c.ake = some a → AkeOK s.conv.ourCurrentKey a.state a →
       Inv K c := by
     intro c a h1 h2 h3 h4 h5 h6 h7 h8
-    refine ⟨?_, ?_, ?_, ?_, ?_⟩
+    refine ⟨?_, ?_, ?_, ?_, ?_, fun hn => absurd (h1 ▸ hn) hv⟩
     · have := h.smpWF; unfold SmpWF at *; rw [h6]; exact this
     · have := h.smpNum; unfold SmpNumWF at *; rw [h6]; exact this
     · have := h.smpWait; unfold SmpWaitWF at *; rw [h6]; exact this
